@@ -119,6 +119,10 @@ func (s Segment) Check(params index.Params) error {
 		indexTime = item.Timestamp
 	}
 
+	if err := s.checkNoPartialHeader(position); err != nil {
+		return err
+	}
+
 	switch items, err := index.Read(s.Index, s.Offset, params); {
 	case errors.Is(err, os.ErrNotExist):
 		return nil
@@ -128,6 +132,19 @@ func (s Segment) Check(params index.Params) error {
 		return index.ErrCorrupted
 	}
 
+	return nil
+}
+
+// checkNoPartialHeader verifies that the log ends at position. Reading a message header that is
+// cut short by the end of the file is reported as io.EOF, same as reading at the end of the file.
+func (s Segment) checkNoPartialHeader(position int64) error {
+	stat, err := os.Stat(s.Log)
+	if err != nil {
+		return fmt.Errorf("stat log: %w", err)
+	}
+	if stat.Size() > position {
+		return fmt.Errorf("%w: partial header at %d", message.ErrCorrupted, position)
+	}
 	return nil
 }
 
@@ -151,6 +168,9 @@ func (s Segment) Recover(params index.Params) error {
 	for {
 		msg, nextPosition, err := log.Read(position)
 		if errors.Is(err, io.EOF) {
+			if err := s.checkNoPartialHeader(position); err != nil {
+				corrupted = true
+			}
 			break
 		} else if errors.Is(err, message.ErrCorrupted) {
 			corrupted = true
